@@ -78,7 +78,7 @@ func c18Auth(c *Ctx) {
 			if !ok {
 				continue
 			}
-			last := ret.Results[len(ret.Results)-1]
+			last := an.RetErr(ret)
 			if !an.IsNilConst(last) {
 				// a non-nil error, or the results of an authenticating call returned as they are
 				if ex, ok := last.(*ssa.Extract); ok {
@@ -169,7 +169,7 @@ func c18Wrap(c *Ctx) {
 		if !ok {
 			continue
 		}
-		data := ret.Results[0]
+		data := an.RetVal(ret, 0)
 		if an.IsNilConst(data) {
 			continue
 		}
